@@ -37,6 +37,29 @@ Proof.
   repeat split; apply Z.leb_le; lia.
 Qed.
 
+(* the same for the stamp the repaired code writes (the maximum clamped one epoch ahead, finding D13) *)
+Theorem child_stamp_old_all c a1 a2 a3 : epoch_ok c -> STAMP_CLAMPED = true ->
+  0 <= a1 < 16 -> 0 <= a2 < 16 -> 0 <= a3 < 16 -> a1 <= c + 2 -> a2 <= c + 2 -> a3 <= c + 2 ->
+  reclaim_now c (child_stamp c a1 a2 a3 mod 16) = true ->
+  reclaim_now c a1 = true /\ reclaim_now c a2 = true /\ reclaim_now c a3 = true.
+Proof.
+  intros Hc Hcl H1 H2 H3 L1 L2 L3 H.
+  destruct (child_stamp_spec c a1 a2 a3 Hc Hcl H1 H2 H3 L1 L2 L3) as [S1 S2].
+  pose proof (decode_window c (merged c a1 a2 a3 mod 16)) as Hw.
+  destruct (Z_le_gt_dec (decode c (merged c a1 a2 a3 mod 16)) (c + 1)) as [Hle|Hgt].
+  - rewrite (S1 Hle) in H. apply merged_old_all; assumption.
+  - exfalso. assert (He : decode c (merged c a1 a2 a3 mod 16) = c + 2) by lia.
+    rewrite (S2 He) in H.
+    assert (R : 0 <= (c + 1) mod 16 < 16) by (apply Z.mod_pos_bound; lia).
+    destruct (Z_le_gt_dec 13 c) as [Hbig|Hsmall].
+    + rewrite reclaim_now_threshold in H by (try assumption; lia).
+      rewrite decode_exact in H by lia. apply Z.leb_le in H. unfold RECLAIM_AGE in H. lia.
+    + unfold epoch_ok in Hc. rewrite Z.mod_small in H by lia.
+      rewrite reclaim_now_threshold in H by (try assumption; lia).
+      assert (decode c (c + 1) = c + 1) by (unfold decode; rewrite Z.mod_small; lia).
+      apply Z.leb_le in H. unfold RECLAIM_AGE in H. lia.
+Qed.
+
 Lemma pending_advance_to fuel : forall s g, pending (advance_to fuel s g) = pending s.
 Proof.
   induction fuel as [|n IH]; intros s g; cbn [advance_to]; [reflexivity|].
@@ -108,5 +131,6 @@ Proof.
 Qed.
 
 Print Assumptions merged_old_all.
+Print Assumptions child_stamp_old_all.
 Print Assumptions child_disposed_only_if_old.
 Print Assumptions snap_b_sound.
